@@ -1132,10 +1132,9 @@ func runC09(r *rep.Run) {
 		}
 	} else {
 		phases = []phase{
-			{[]string{"1x1", "1x2", "2x1", "2x2", "2x3"}, 4, false},
-			{[]string{"3x3"}, 3, false},
-			{[]string{"1x1", "1x2", "2x1", "2x2", "2x3"}, 5, true},
-			{[]string{"foreign-ragged", "foreign-nogrid", "foreign-spans", "foreign-nested"}, 3, false},
+			{[]string{"1x1", "1x2", "2x1", "2x2"}, 5, false},
+			{[]string{"2x3", "3x3"}, 4, false},
+			{[]string{"foreign-ragged", "foreign-nogrid", "foreign-spans", "foreign-nested"}, 4, false},
 		}
 	}
 	var ph []interface{}
